@@ -15,20 +15,17 @@ theorem C14_stop_irrelevant (bs : List Nat) (s : Nat) (nl : Bool) (h : bs.length
     parseBody (some s) bs nl = parseBody none bs nl :=
   parseBody_stop_irrelevant bs s nl h
 
-/-- the stream entry point and the memory-mapped single-threaded entry point build the same store -/
+/-- the stream entry point and the memory-mapped single-threaded entry point produce the same result: the same encoder
+(time table, blocks, pending block — every field), or the same error / panic class -/
 theorem C14_reader_eq_mmap (c : Codec) (d : Decls) (rm : RealMap) (body : List Nat) (fileLen : Nat)
     (hf : body.length ≤ fileLen) :
-    (match readValues c d rm body (.reader fileLen), readValues c d rm body .single with
-     | .ok a, .ok b => a.timeRev = b.timeRev ∧ a.blocksRev.length = b.blocksRev.length
-     | .err, .err => True
-     | .panic, .panic => True
-     | _, _ => False) := by
+    readValues c d rm body (.reader fileLen) = readValues c d rm body .single := by
   simp only [readValues, readStream]
   rw [C14_stop_irrelevant body fileLen false (by omega), C14_stop_irrelevant body (body.length - 1) false (by omega)]
-  cases applyEvs c d rm { enc := newEnc d.sigTypes, isFirst := true }
-      (match parseBody none body with | .ok e => e | .err e => e) with
-  | none => trivial
-  | some v => cases parseBody none body <;> simp
+
+/-- the debug-assertion build takes the same path (the model has no build-dependent branch in the body driver) -/
+theorem C14_checked_eq_release (c : Codec) (d : Decls) (rm : RealMap) (body : List Nat) :
+    readValues c d rm body .singleChecked = readValues c d rm body .single := rfl
 
 example : parseBody (some 12) [10, 35, 53, 10, 49, 33, 10, 98, 49, 48, 32, 34, 10] =
     parseBody (some 100) [10, 35, 53, 10, 49, 33, 10, 98, 49, 48, 32, 34, 10] := by decide
